@@ -9,13 +9,14 @@ where the caller's frame began and on the number of arguments, not on how deep t
 
 PRELUDE = r'''
 use crate::vm::heap::Heap; use crate::vm::stack::Stack;
+use crate::vm::continuation::{cont_stack, cont_regs, cont_wf};
 // ---------------------------------------------------------------- assumed contracts of what run_one calls
 /// the opcode at %ip
 pub uninterp spec fn next_op(vm: Vm) -> OpCode;
 /// fetching the opcode moves %ip.1 and nothing else
 pub assume_specification [Vm::read_opcode] (vm: &mut Vm) -> (r: Result<OpCode, Error>)
     ensures r matches Ok(op) ==> op == next_op(*old(vm)),
-            final(vm).stack_spec() == old(vm).stack_spec(), final(vm).heap_spec() == old(vm).heap_spec(), final(vm).acc_spec() == old(vm).acc_spec(),
+            final(vm).stack_spec() == old(vm).stack_spec(), final(vm).heap_spec() == old(vm).heap_spec(), final(vm).globenv_spec() == old(vm).globenv_spec(), final(vm).acc_spec() == old(vm).acc_spec(),
             final(vm).regs().0 == old(vm).regs().0, final(vm).regs().2 == old(vm).regs().2;
 pub assume_specification [Vm::trace_instruction] (vm: &Vm);
 pub assume_specification [Vm::read_operand] (vm: &mut Vm) -> (r: Result<VCell, Error>);
@@ -42,8 +43,10 @@ pub assume_specification [crate::vm::vector::Vector::push] (v: &crate::vm::vecto
 pub assume_specification [Vm::build_closure_environment] (vm: &Vm, envmap: &crate::vm::environment::EnvironmentMap) -> (r: Result<crate::vm::environment::LexicalEnvironment, Error>);
 pub assume_specification [Vm::build_lexical_environment] (vm: &Vm, lambda: &Lambda, p: usize, e: &crate::vm::environment::LexicalEnvironment) -> (r: Result<crate::vm::environment::LexicalEnvironment, Error>);
 pub assume_specification [crate::vm::vcell::BuiltInProc::eval] (p: &crate::vm::vcell::BuiltInProc, vm: &mut Vm) -> (r: Result<VCell, Error>);
-pub assume_specification [Vm::restore_continuation] (vm: &mut Vm, c: &crate::vm::continuation::Continuation);
 pub assume_specification [Vm::lambda] (vm: &Vm) -> (r: &Lambda);
+/// Vm::pop: the popped cell read through the heap (run.rs: `self.heap.get(self.stack.pop()?)`)
+pub assume_specification [Vm::pop] (vm: &mut Vm) -> (r: Result<VCell, Error>)
+    ensures r matches Ok(c) ==> c == heap_deref(old(vm).heap_spec(), old(vm).stack_spec().cells()[old(vm).stack_spec().sp_spec() as int]);
 /// std: `impl<T> From<T> for T` is the identity
 #[verifier::external_body]
 pub proof fn axiom_into_self() ensures <VCell as vstd::std_specs::convert::IntoSpec<VCell>>::obeys_into_spec(),
@@ -77,6 +80,28 @@ pub open spec fn copied(s0: Stack, s: Stack, lo: int, hi: int, src_lo: int) -> b
 pub open spec fn same_outside(s0: Stack, s: Stack, lo: int, hi: int) -> bool {
     forall|j: int| 0 <= j < s0.cells().len() && !(lo <= j < hi) ==> #[trigger] s.cells()[j] == s0.cells()[j]
 }
+/// the callee in %acc is a continuation object
+pub open spec fn callee_continuation(vm: Vm) -> Option<crate::vm::continuation::Continuation> {
+    match heap_deref(vm.heap_spec(), vm.acc_spec()) { VCell::Continuation(c) => Some(*c), _ => None }
+}
+/// invoking a continuation (CALL or TCALL with a continuation in %acc): the machine is back at the captured control state --
+/// live stack, stack pointer, %ep, %ip, %bp of the capture -- and the accumulator holds the delivered argument cell itself
+/// (the cell under the argument count; not a copy, not what it points to); heap and globals are as they were before the call
+pub open spec fn continuation_invoked(old: Vm, new: Vm, c: crate::vm::continuation::Continuation) -> bool {
+    let s0 = old.stack_spec(); let sp = s0.sp_spec() as int;
+    &&& sp >= 2 && (argc_at(s0, sp) matches Some(k) && k != 0)
+    &&& new.acc_spec() == s0.cells()[sp - 1]
+    &&& new.regs() == cont_regs(c)
+    &&& new.stack_spec().wf() && new.stack_spec().live() == cont_stack(c).cells() && new.stack_spec().sp_spec() == cont_stack(c).sp_spec()
+    &&& new.heap_spec() == old.heap_spec() && new.globenv_spec() == old.globenv_spec()
+}
+/// what the instruction requires of the machine: a well-formed stack that can still double; for TCALL the frame layout;
+/// for a continuation callee a well-formed capture no longer than the running stack (stacks never shrink: whole-history fact)
+pub open spec fn call_ready(vm: Vm) -> bool {
+    &&& vm.stack_spec().wf() && vm.stack_spec().cells().len() <= i64::MAX / 4
+    &&& (next_op(vm) is TCallAcc ==> tcall_frame(vm))
+    &&& (callee_continuation(vm) matches Some(c) ==> cont_wf(c) && cont_stack(c).cells().len() <= vm.stack_spec().cells().len())
+}
 /// what TCALL to a procedure leaves: the frame is rebuilt in place from its first argument slot (base = bp - m + 1)
 pub open spec fn frame_replaced(old: Vm, new: Vm) -> bool {
     let s0 = old.stack_spec(); let s1 = new.stack_spec(); let bp = old.regs().2 as int; let sp = s0.sp_spec() as int;
@@ -100,10 +125,11 @@ UNITS = [{
     'prelude': PRELUDE,
     'fns': {
         'impl Vm::run_one': {
-            'props': P,
+            'props': P + ['C05'],
             'attrs': '#[verifier::exec_allows_no_decreases_clause]\n#[verifier::loop_isolation(false)]',
-            'requires': ['next_op(*old(self)) is TCallAcc', 'tcall_frame(*old(self))'],
-            'ensures': [(P, '(r is Ok && callee_is_procedure(*old(self))) ==> frame_replaced(*old(self), *final(self))')],
+            'requires': ['next_op(*old(self)) is TCallAcc || next_op(*old(self)) is CallAcc', 'call_ready(*old(self))'],
+            'ensures': [(P, '(r is Ok && next_op(*old(self)) is TCallAcc && callee_is_procedure(*old(self))) ==> frame_replaced(*old(self), *final(self))'),
+                        (['C05'], 'r is Ok ==> (callee_continuation(*old(self)) matches Some(c) ==> continuation_invoked(*old(self), *final(self), c))')],
             'body_start': 'proof { axiom_into_self(); axiom_cow_cell_ref(&old(self).acc_spec()); }',
             'loop_count': 3,
             'loop_iter': {1: 'it1'},
